@@ -6,12 +6,18 @@ import (
 	"os"
 
 	"verif/harness/checks"
+	"verif/harness/vf"
 )
 
 func main() {
 	if len(os.Args) < 3 {
 		fmt.Fprintln(os.Stderr, "usage: h <ID> quick|thorough | h <ID> --replay <file>")
 		os.Exit(2)
+	}
+	// grip prints diagnostics with fmt.Printf; keep the protocol channel clean
+	vf.Out = os.Stdout
+	if dn, err := os.OpenFile(os.DevNull, os.O_WRONLY, 0); err == nil && os.Getenv("VERIF_LOG") == "" {
+		os.Stdout = dn
 	}
 	id, tier := os.Args[1], os.Args[2]
 	f, ok := checks.Registry[id]
